@@ -431,10 +431,28 @@ def lookup(chm, path):
 
 
 def build_chm(entries, style=0):
-    """entries: list of (path, value | ("M", flag, value, stage)) -> ChoiceMap"""
+    """entries: list of (path, value | ("M", flag, value, stage)) -> ChoiceMap.
+    style 0: Python-int index components; 1: array index components; 2: where every index 0..n-1 of a leading index
+    level carries a plain value under the same static suffix, ONE vectorised entry (static address, array leaf) —
+    the struct-of-arrays form vmap/scan constraints are usually written in"""
     import jax.numpy as jnp
     from genjax import ChoiceMap as C, Mask
     acc = C.empty()
+    if style == 2:
+        groups = {}
+        for path, v in entries:
+            if path and path[0][0] == "i" and all(k == "s" for k, _ in path[1:]) and len(path) > 1 and not isinstance(v, tuple):
+                groups.setdefault(tuple(tuple(c) for c in path[1:]), {})[path[0][1]] = v
+        done = set()
+        for suffix, byidx in groups.items():
+            n = len(byidx)
+            if n >= 1 and sorted(byidx) == list(range(n)) and n == max(byidx) + 1 and n == style_n(entries):
+                leaf = jnp.array([float(byidx[i]) for i in range(n)], dtype=jnp.float32)
+                acc = acc | C.entry(leaf, *path_key(list(suffix)))
+                done.add(suffix)
+        entries = [(p_, v_) for (p_, v_) in entries
+                   if not (p_ and p_[0][0] == "i" and tuple(tuple(c) for c in p_[1:]) in done and not isinstance(v_, tuple))]
+        style = 0
     for path, v in entries:
         key = path_key(path)
         if isinstance(v, tuple) and v[0] == "M":
@@ -446,6 +464,18 @@ def build_chm(entries, style=0):
             key = tuple(jnp.array(k, dtype=jnp.int32) if isinstance(k, int) else k for k in key)
         acc = acc | C.entry(leaf, *key)
     return acc
+
+
+_STYLE_N = [None]
+
+
+def style_n(entries):
+    """the length of the leading vector level (set by the caller through set_style_n)"""
+    return _STYLE_N[0]
+
+
+def set_style_n(n):
+    _STYLE_N[0] = n
 
 
 def c_entries(entries):
@@ -617,11 +647,12 @@ class Gen:
             argt.append(("A", n, t) if ax == 0 else t)
         if all(a is None for a in axes):
             return self.vmap(depth)
-        # axis-1 mapping of a matrix argument
-        if r.random() < 0.15:
-            for i, t in enumerate(gat):
-                if t == "S" and axes[i] == 0:
-                    pass
+        # axis-1 mapping: the inner function is itself a vmap over a vector argument; the outer one maps the COLUMNS
+        # of a matrix (in_axes=1), so element j of the outer map receives column j
+        if g[0] == "vmap" and gat and isinstance(gat[0], tuple) and gat[0][0] == "A" and gat[0][2] == "S" and gat[0][1] >= 1 \
+                and n >= 1 and r.random() < 0.6:
+            axes[0] = 1
+            argt[0] = ("A", gat[0][1], ("A", n, "S"))      # rows = inner length, columns = outer length
         return ("vmap", axes, g), argt, ("A", n, grt)
 
     def kernel(self, depth, xt):
@@ -665,6 +696,9 @@ class Gen:
             pre = [self.sexpr(argt)]
         if grt == "S":
             post = ("add", ("var", 2), ("mul", ("proj", 0, ("var", 0)), ("const", r.randint(0, 2))))
+            if gat and gat[0] == "S" and r.random() < 0.6:
+                # post also reads the transformed arguments (its second parameter)
+                post = ("add", post, ("mul", ("proj", 0, ("var", 1)), ("const", r.randint(1, 2))))
             rt = "S"
         else:
             post, rt = ("var", 2), grt
